@@ -3,7 +3,7 @@ import sys, random, time, collections
 sys.path.insert(0, '/tmp/vf_TC14')
 from harness.props import C14
 C14.setup()
-cs = list(C14._gen_coercion(sys.argv[1] if len(sys.argv) > 1 else 'quick', random.Random(1)))
+cs = [c for c in C14._gen_coercion(sys.argv[1] if len(sys.argv) > 1 else 'quick', random.Random(1)) if c['op'] == 'isin']
 t0 = time.time(); bad = collections.Counter(); ex = {}
 for c in cs:
     mem = [t for t in c['tests'] if t is not None]
